@@ -154,15 +154,15 @@ Fixpoint digits (fuel : nat) (n : Z) (acc : list Z) : list Z :=
   end.
 Definition dec (n : Z) : list Z := digits 12 n [].
 
-Definition s_tcp := [116; 99; 112].                                       (* "tcp" *)
-Definition s_and := [32; 97; 110; 100; 32].                               (* " and " *)
-Definition s_or := [32; 111; 114; 32].                                    (* " or " *)
-Definition s_ip_src_net := [105; 112; 32; 115; 114; 99; 32; 110; 101; 116; 32].          (* "ip src net " *)
-Definition s_arp := [97; 114; 112].                                       (* "arp" *)
-Definition s_arp_src_net := [97; 114; 112; 32; 115; 114; 99; 32; 110; 101; 116; 32].     (* "arp src net " *)
-Definition s_src_portrange := [115; 114; 99; 32; 112; 111; 114; 116; 114; 97; 110; 103; 101; 32]. (* "src portrange " *)
-Definition s_synack := [116; 99; 112; 91; 49; 51; 93; 32; 61; 61; 32; 49; 56].           (* "tcp[13] == 18" *)
-Definition s_icmp := [105; 99; 109; 112; 32; 97; 110; 100; 32; 105; 99; 109; 112; 91; 48; 93; 33; 61; 56]. (* "icmp and icmp[0]!=8" *)
+Definition txt_tcp := [116; 99; 112].                                       (* "tcp" *)
+Definition txt_and := [32; 97; 110; 100; 32].                               (* " and " *)
+Definition txt_or := [32; 111; 114; 32].                                    (* " or " *)
+Definition txt_ip_src_net := [105; 112; 32; 115; 114; 99; 32; 110; 101; 116; 32].          (* "ip src net " *)
+Definition txt_arp := [97; 114; 112].                                       (* "arp" *)
+Definition txt_arp_src_net := [97; 114; 112; 32; 115; 114; 99; 32; 110; 101; 116; 32].     (* "arp src net " *)
+Definition txt_src_portrange := [115; 114; 99; 32; 112; 111; 114; 116; 114; 97; 110; 103; 101; 32]. (* "src portrange " *)
+Definition txt_synack := [116; 99; 112; 91; 49; 51; 93; 32; 61; 61; 32; 49; 56].           (* "tcp[13] == 18" *)
+Definition txt_icmp := [105; 99; 109; 112; 32; 97; 110; 100; 32; 105; 99; 109; 112; 91; 48; 93; 33; 61; 56]. (* "icmp and icmp[0]!=8" *)
 
 (* net.IPNet.String of a 4-byte network: dotted quad "/" prefix length *)
 Definition net_text (n : Z * Z) : list Z :=
@@ -173,18 +173,18 @@ Definition net_text (n : Z * Z) : list Z :=
 Fixpoint ports_text (ps : list (Z * Z)) : list Z :=
   match ps with
   | [] => []
-  | [(a, b)] => s_src_portrange ++ dec a ++ [45] ++ dec b
-  | (a, b) :: ps' => s_src_portrange ++ dec a ++ [45] ++ dec b ++ s_or ++ ports_text ps'
+  | [(a, b)] => txt_src_portrange ++ dec a ++ [45] ++ dec b
+  | (a, b) :: ps' => txt_src_portrange ++ dec a ++ [45] ++ dec b ++ txt_or ++ ports_text ps'
   end.
 
 Definition tcp_text (r : range) : list Z :=
-  s_tcp ++ (match r_subnet r with Some n => s_and ++ s_ip_src_net ++ net_text n | None => [] end)
-        ++ (match r_ports r with [] => [] | ps => s_and ++ [40] ++ ports_text ps ++ [41] end).
-Definition synack_text (r : range) : list Z := tcp_text r ++ s_and ++ s_synack.
+  txt_tcp ++ (match r_subnet r with Some n => txt_and ++ txt_ip_src_net ++ net_text n | None => [] end)
+        ++ (match r_ports r with [] => [] | ps => txt_and ++ [40] ++ ports_text ps ++ [41] end).
+Definition synack_text (r : range) : list Z := tcp_text r ++ txt_and ++ txt_synack.
 Definition icmp_text (r : range) : list Z :=
-  s_icmp ++ (match r_subnet r with Some n => s_and ++ s_ip_src_net ++ net_text n | None => [] end).
+  txt_icmp ++ (match r_subnet r with Some n => txt_and ++ txt_ip_src_net ++ net_text n | None => [] end).
 Definition arp_text (r : range) : list Z :=
-  match r_subnet r with None => s_arp | Some n => s_arp_src_net ++ net_text n end.
+  match r_subnet r with None => txt_arp | Some n => txt_arp_src_net ++ net_text n end.
 
 (* ------------------------------------------------------------------ the wiring of a command *)
 (* what command/*.go composes (translated into Gen/Wiring.v by tools/gen/wiring.go) *)
